@@ -380,6 +380,11 @@ func (x *fwdExec) step1(a fwdAct) map[string]any {
 			tk = -1
 		}
 		th.VerifIncomingData(pkt)
+		// the buffer belongs to the caller again: its payload is overwritten (what the tables keep must be their own copy;
+		// the name region is left alone - the packet's parsed name, which the thread may keep, points into it)
+		if k := bytes.Index(raw, []byte("payload")); k >= 0 {
+			copy(raw[k:], "PAYLOAD")
+		}
 		after := x.pcs.VerifShape()
 		csNames := [][]string{}
 		for _, n := range after.CsNames {
@@ -462,6 +467,22 @@ func (x *fwdExec) step1(a fwdAct) map[string]any {
 		}
 	}
 	ev["dins"] = dnlList(ins)
+	// side-effect-free cache probes at the table's own interface (CanBePrefix lookups do not touch the replacement order)
+	probes := []map[string]any{}
+	for _, pn := range fwdProbeNames {
+		for _, mbf := range []bool{false, true} {
+			r := []string{"$none"}
+			if e := x.pcs.FindMatchingDataFromCS(&spec.Interest{NameV: nm(pn), CanBePrefixV: true, MustBeFreshV: mbf}); e != nil {
+				if d, _, err := e.Copy(); err == nil && d != nil {
+					r = nameStrs(d.NameV)
+				} else {
+					r = []string{"$garbled"}
+				}
+			}
+			probes = append(probes, map[string]any{"n": strs(pn), "mbf": mbf, "r": r})
+		}
+	}
+	ev["probes"] = probes
 	sh := x.pcs.VerifShape()
 	ev["obs"] = map[string]int{"npit": sh.NPit, "ncs": sh.NCs, "ents": len(sh.Entries), "csn": len(sh.CsNames),
 		"nodes": sh.Nodes, "dead": sh.DeadLeaves, "lru": sh.LruLen, "tokmap": sh.TokenMap, "queue": sh.QueueLen,
@@ -574,6 +595,10 @@ const fwdCollide = "/a%00%00%00%00%00%00%00%08b"
 
 // fwdTyped differs from /a/b only in the TYPE of its second component (a name hash that forgets the type merges them)
 const fwdTyped = "/a/32=b"
+
+// names asked of the cache directly after every step: names of the universe, names below cached ones that no Interest ever created a
+// tree node for, siblings
+var fwdProbeNames = []string{"/", "/a", "/a/b", "/a/b/c", "/a/b/c/e", "/a/b/x", "/a/b/c/e/z", "/a/q", "/d", "/d/f/g", "/localhost", "/localhost/x/y/z", fwdTyped}
 
 var fwdINames = []string{"/a", "/a/b", "/a/b/c", "/d", "/localhost/x", "/", fwdCollide, fwdTyped}
 var fwdDNames = []string{"/", "/a", "/a/b", "/a/b/c", "/a/b/c/e", "/d", "/d/f", "/localhost/x", "/localhost/x/y", fwdCollide, "/a/b", fwdTyped}
